@@ -83,6 +83,11 @@ func (a *Operator) assemble(assembleParser *parser.Parser, input *bytes.Buffer) 
 		}
 	}
 
+	if err := fileScanner.Err(); err != nil {
+		logger.Error().Err(err).Msg("Failed to read the parsed input")
+		return "", err
+	}
+
 	processor, err := processorStack.top()
 	if err != nil {
 		logger.Error().Err(err).Msg("Mismatched end marker, processor stack is empty")
